@@ -104,6 +104,40 @@ pub fn run(ctx: &mut Ctx) {
         if k == 0 { ctx.sample(format!("session user={:?} tape={} : M1 accepted, 40 single-bit flips of M1 and of M2, A/B/salt bit flips, other password/username, case-only change", u, hex(&tape))); }
     }
 
+    // ---- sessions whose secret S has a rare byte shape (found with textbook arithmetic only): the proof
+    // the server must accept is the textbook one, whatever the zero bytes of S do to the key derivation
+    let shapes: Vec<(&str, usize, Box<dyn Fn(&[u8; 32]) -> bool + Sync>)> = vec![
+        ("S = 00 xx ..", 1, Box::new(|s| s[0] == 0 && s[1] != 0)),
+        ("S = .. 00 (high byte zero)", 1, Box::new(|s| s[31] == 0)),
+        ("S = 00 xx 00 ..", if ctx.quick() { 1 } else { 4 }, Box::new(|s| s[0] == 0 && s[1] != 0 && s[2] == 0)),
+        ("S = 00 00 xx ..", if ctx.quick() { 1 } else { 4 }, Box::new(|s| s[0] == 0 && s[1] == 0 && s[2] != 0)),
+    ];
+    for (si, (label, reps, pred)) in shapes.iter().enumerate() {
+        for rep in 0..*reps {
+            let (u, p) = (rand_cred(&mut rng, 3 + si), rand_cred(&mut rng, 5 + rep));
+            let Some(tape) = search_secret_shape(ctx.seed, &format!("C02/shape/{}/{}", si, rep), &u, &p, 40_000, pred) else { ctx.notes.push(format!("shape search exhausted: {}", label)); continue };
+            let (un, pn) = (ns(&u), ns(&p));
+            let sp = spec_session(un.as_ref().as_bytes(), pn.as_ref().as_bytes(), &tape[0..32], &tape[32..64], &tape[64..96], GENERATOR, &NLE);
+            let (b, a, chal) = (&tape[32..64], &tape[64..96], &tape[96..112]);
+            let salt = arr32(&tape[0..32]);
+            ctx.count(&format!("shape:{}", label));
+            let mut ms = vec![sp.m1];
+            for (w, _) in near_misses(&mut rng, &sp.m1) { ms.push(arr20(&w)); }
+            if let Ok(l) = login(&u, &p, &u, &p, &tape) { if l.m1 != sp.m1 { ms.push(l.m1); } }
+            let out = emit_server(ctx, &format!("server: textbook M1 for a session with {}", label), &u, sp.v, salt, b, sp.a_pub, &ms, chal);
+            ctx.oracle_runs += 1;
+            let det = |what: &str| format!("{{\"what\":{},\"shape\":{},\"user\":{},\"password\":{},\"tape\":\"{}\",\"S\":\"{}\",\"textbook_M1\":\"{}\"}}", jstr(what), jstr(label), jstr(&u), jstr(&p), hex(&tape), hex(&sp.s), hex(&sp.m1));
+            if out.len() == 3 {
+                if out[2][0] != 0 { ctx.fail("determined_proof_refused", det("the server refused the proof determined by verifier, salt, username, A and B")); }
+                else {
+                    let mut pos = 1 + 20 + 40 + 16;
+                    for j in 1..ms.len() { if pos < out[2].len() && out[2][pos] == 0 { ctx.fail("other_proof_accepted", det(&format!("the server accepted {} which is not the determined proof", hex(&ms[j])))); pos += 1 + 20 + 40 + 16; } else { pos += 41; } }
+                }
+            } else { ctx.fail("determined_proof_refused", det("server set-up failed or panicked")); }
+            emit_client(ctx, &format!("client: textbook M2 for a session with {}", label), &u, &p, sp.b_pub, salt, a, &[sp.m2, arr20(&flip(&sp.m2, 7))]);
+        }
+    }
+
     // ---- implementation-only oracle ----
     let per_thread = if ctx.quick() { 12 } else { 800 };
     let seed = ctx.seed;
